@@ -656,6 +656,15 @@ def handle (ts : List String) : String :=
     | some (routed, outs, drained) =>
       encBool (outs.all (fun o => o.isPrefixOf routed) && (!drained || outs.getLast? == some routed || (outs.isEmpty && routed.isEmpty)))
     | none => "bad-op"
+  | "spec" :: "c16inflight" :: rest =>
+    match runP (do let n ← pNat; let i ← pNat; let j ← pNat; let e ← pNat; let logs ← pList (pList pNat); pure (n, i, j, e, logs)) rest with
+    | some (n, i, j, e, logs) => encBool (Spec.Cli.inflightHolds n i j e logs)
+    | none => "bad-op"
+  | "spec" :: "c14own" :: rest =>
+    -- a handler subscribed through the driver class is called exactly once for a write to its own driver's element
+    match runP (pList pNat) rest with
+    | some counts => encBool (counts.all (· == 1))
+    | none => "bad-op"
   | "spec" :: "c14nested" :: rest =>
     match runP (do
         let hs ← pList pNat
@@ -786,6 +795,11 @@ def handle (ts : List String) : String :=
         encCalls (Buf.expectedCalls segs 0 0 ps)
       else "na"
     | none => "bad-op"
+  | "spec" :: "buf02len" :: rest =>
+    -- C02 for streams handed over by their lengths only: (gap length, body length) per message, the piece lengths
+    match runP (do let segs ← pList (do let g ← pNat; let b ← pNat; pure (g, b)); let ps ← pList pNat; pure (segs, ps)) rest with
+    | some (segs, ps) => encCalls (Buf.expectedCallsLen segs 0 0 ps)
+    | none => "bad-op"
   | "spec" :: "buf11c" :: rest =>
     -- resynchronisation (theorem C11_resync): corrupt prefix, then a valid stream longer than the threshold
     match runP (do
@@ -810,6 +824,10 @@ def handle (ts : List String) : String :=
   | "sw" :: "run" :: rest =>
     match runP (do let r ← pRule; let v ← pBits; let ops ← pList pSwOp; pure (r, v, ops)) rest with
     | some (r, v, ops) => String.intercalate " | " ((Switch.run r v ops).map encSwStep)
+    | none => "bad-op"
+  | "spec" :: "swrefused" :: rest =>
+    match runP (do let before ← pBits; let snaps ← pList pBits; let after ← pBits; pure (before, snaps, after)) rest with
+    | some (before, snaps, after) => encBool (snaps.all (· == before) && after == before)
     | none => "bad-op"
   | "spec" :: "sw" :: rest =>
     match runP (do
